@@ -160,3 +160,14 @@ package hclwrite
 //@   guard-call two:     "append" !argis(1, "fmted") ==> (len(arg(1)) == 2 && arg(1)[0] == 92 && ((r == 10 && arg(1)[1] == 110) || (r == 13 && arg(1)[1] == 114) || (r == 9 && arg(1)[1] == 116) || (r == 34 && arg(1)[1] == 34) || (r == 92 && arg(1)[1] == 92)))
 //@   guard-call hexonly: "Sprintf" arg(0) == "\\x%02x" && len(arg(1)) == 1 && typeis(arg(1)[0], uint8)
 //@   guard-call itself:  "appendRune" arg(1) == r
+
+// A character written "as itself" is written as its UTF-8 encoding: as many bytes as the encoding has,
+// behind what was there, produced by the encoder for this very rune.
+//@ func appendRune(b []byte, r rune) (out []byte)
+//@   requires valid: runelen(r) >= 1
+//@   modifies elems(b)
+//@   ensures grown: len(out) == len(old(b)) + runelen(r)
+//   (that the bytes in front are unchanged is not stated: the encoder's assumed frame is the whole array of its argument)
+//@   guard-call enc: "EncodeRune" arg(1) == r && len(arg(0)) == runelen(r)
+//@   loop "for i := 0; i < l; i++"
+//@     invariant room: 0 <= i && i <= l && l == runelen(r) && len(b) == len(old(b)) + i && b[:len(old(b))] == old(b) && (fresh(arrayof(b)) || (samearray(b, old(b)) && sameslice(b[:len(old(b))], old(b))))
